@@ -205,10 +205,17 @@ pub fn pl4_after_print(
     pathid: &PathId,
     map_pathid_datum: &mut MapPathIdDatum,
     set_pathid: &mut SetPathId,
+    // the rest of what is in scope at this point of processing_loop and could be touched (frame)
+    is_last: IsLastLogMessage,
+    cli_opt_summary: bool,
+    disconnect: &mut Vec<PathId>,
 )
     ensures
         final(map_pathid_datum)@ == old(map_pathid_datum)@.remove(*pathid),
         final(set_pathid)@ == old(set_pathid)@.remove(*pathid),
+        // C06: having printed a message -- even the one flagged as its file's last -- is no reason to stop listening to the source:
+        // a source is disconnected only when its FileSummary arrives, its channel fails, or printing fails (PL3d, PL3b, PL6)
+        final(disconnect)@ == old(disconnect)@,
 {
     proof { broadcast use group_btree_axioms; broadcast use vstd::std_specs::hash::group_hash_axioms; }
 //@cut slice path=src/bin/s4.rs fn=processing_loop anchor="let pathid_: PathId = *pathid;" take=rest_of_block label=PL4
